@@ -1,8 +1,8 @@
 """Which units exist.  Verus units are modules with a UNIT; Kani units are defined below."""
-from units import u2_send, u3_recv, u23_roundtrip, u7_ipc, u6_router, u4_conv, u8_shm, u5_set, u6b_proxy
+from units import u2_send, u3_recv, u23_roundtrip, u7_ipc, u6_router, u4_conv, u8_shm, u5_set, u6b_proxy, u9_ledger
 from vf.kani import KaniUnit
 
-VERUS_UNITS = [u2_send.UNIT, u3_recv.UNIT, u23_roundtrip.UNIT, u7_ipc.UNIT, u6_router.UNIT, u4_conv.UNIT, u8_shm.UNIT, u5_set.UNIT, u6b_proxy.UNIT]
+VERUS_UNITS = [u2_send.UNIT, u3_recv.UNIT, u23_roundtrip.UNIT, u7_ipc.UNIT, u6_router.UNIT, u4_conv.UNIT, u8_shm.UNIT, u5_set.UNIT, u6b_proxy.UNIT, u9_ledger.UNIT]
 
 K_LEDGER = KaniUnit(
     name="k_ledger", harness_file="kani/harness_unix.rs", append_to="src/platform/unix/mod.rs",
@@ -15,6 +15,11 @@ K_LEDGER = KaniUnit(
     safety_props=["C11"],
     assumptions=["socket/socketpair return fresh descriptors or fail; close succeeds on an open descriptor; connect(2) fails nondeterministically",
                  "descriptor ledger of 8 slots (a harness creates at most 2)"],
+    replay=[("kani.ledger.connect_", "connect_err_no_leak", []), ("kani.ledger.socket", "created_descriptors_cloexec", []),
+            ("kani.ledger.sender_", "sender_closed_once_at_last_drop", []), ("kani.ledger.opaque_", "opaque_released_exactly_once", []),
+            ("kani.ledger.consume", "consume", []), ("kani.ledger.moved_", "consume", []), ("kani.ledger.consumed_", "consume", []),
+            ("kani.ledger.receiver_drop", "sender_closed_once_at_last_drop", []), ("kani.ledger.sender_drop", "sender_closed_once_at_last_drop", []),
+            ("kani.ledger.duplicate_", "shared_memory_clone", []), ("kani.ledger.clone_", "shared_memory_clone", [])],
 )
 K_CMSG = KaniUnit(
     name="k_cmsg", harness_file="kani/harness_unix.rs", append_to="src/platform/unix/mod.rs",
@@ -23,7 +28,11 @@ K_CMSG = KaniUnit(
     id_props=[("kani.cmsg.recvmsg_cmsg_cloexec", ["C11"]), ("kani.cmsg.result_mapping", ["C10", "C03"]),
               ("kani.conv.", ["C03", "C12"]), ("kani.cmsg.", ["C10"])],
     safety_props=["C10"],
-    assumptions=["fcntl(F_SETFL) sets exactly the O_NONBLOCK bit it is given or fails; recvmsg and poll return ANY value",
+    assumptions=["fcntl(F_SETFL) sets exactly the O_NONBLOCK bit it is given or fails; recvmsg and poll return ANY value (revents too)",
                  "Duration ranges over all (secs: u64, nanos < 1e9)"],
+    replay=[("kani.cmsg.recvmsg_cmsg_cloexec", "received_descriptors_cloexec", []),
+            ("kani.cmsg.nonblocking_flag", "nonblocking_flag_clear_on_return", []),
+            ("kani.cmsg.timeout_touches_no_flags", "nonblocking_flag_clear_on_return", []),
+            ("kani.cmsg.timeout_poll_waits", "timeout_poll_waits_requested_milliseconds", ["secs", "nanos"])],
 )
 KANI_UNITS = [K_LEDGER, K_CMSG]
